@@ -230,15 +230,13 @@ func (m *Model) RunErrLine(s *Sink, rule string) {
 	pp := m.PkgFunc("textwire", "parseProgram")
 	if pp != nil {
 		ok := false
-		for _, b := range pp.Blocks {
-			for _, in := range b.Instrs {
-				if c, isC := in.(*ssa.Call); isC && c.Call.StaticCallee() != nil && canonFnName(c.Call.StaticCallee()) == "New" && inPkg(c.Call.StaticCallee(), "parser") {
-					if c.Call.Args[1] == ssa.Value(pp.Params[0]) {
-						ok = true
-					}
+		m.walkInlined(pp, 2, func(in ssa.Instruction, resolve func(ssa.Value) ssa.Value, _ int) {
+			if c, isC := in.(*ssa.Call); isC && c.Call.StaticCallee() != nil && canonFnName(c.Call.StaticCallee()) == "New" && inPkg(c.Call.StaticCallee(), "parser") {
+				if resolve(c.Call.Args[1]) == ssa.Value(pp.Params[0]) {
+					ok = true
 				}
 			}
-		}
+		})
 		if ok {
 			s.OK(rule, fnKey(pp)+"|parser knows the file it parses", m.Pos(pp.Pos()), "parser.New(lexer, absPath)")
 		} else {
